@@ -61,7 +61,7 @@ theorem html_stage_chunk_invariant_final (ev : Bytes → Bytes → Bool) (codec 
 /-- non-vacuity: a schedule that cuts inside a start tag, inside a raw-text element, inside a comment and inside an end
 tag; the filter acts (`$` is prepended in `<p>`), and both runs agree — by the theorem, not by evaluating the two runs -/
 def cutBody : List Bytes :=
-  [[60, 100, 105], [118, 62, 60, 115, 99, 114, 105, 112, 116, 62, 60, 112], [62, 60, 47, 115, 99, 114, 105, 112, 116, 62, 60, 33, 45],
+  [[60, 100, 105], [118, 62, 60, 115, 116, 121, 108, 101, 62, 60, 112], [62, 60, 47, 115, 116, 121, 108, 101, 62, 60, 33, 45],
    [45, 60, 112, 62, 45, 45, 62, 60, 112, 62, 120, 60, 47], [112, 62, 60, 47, 100, 105, 118, 62]]
 
 theorem cut_example :
@@ -69,10 +69,10 @@ theorem cut_example :
       (Chain.new noCodec id [.html "prepend_child" [[100, 105, 118], [112]] none [36]] []).run htmlTokenize evalStandIn noCodec [cutBody.flatten] :=
   chunk_invariant_final' evalStandIn id _ [] rfl (by intro f hf; simp at hf; subst hf; unfold V; decide) cutBody (by decide +kernel)
 
-/-- ... and the filter does act on that input: `<div><script><p></script><!--<p>--><p>$x</p></div>` -/
+/-- ... and the filter does act on that input: `<div><style><p></style><!--<p>--><p>$x</p></div>` -/
 theorem cut_example_acts :
     (Chain.new noCodec id [.html "prepend_child" [[100, 105, 118], [112]] none [36]] []).run htmlTokenize evalStandIn noCodec [cutBody.flatten] =
-      [60, 100, 105, 118, 62, 60, 115, 99, 114, 105, 112, 116, 62, 60, 112, 62, 60, 47, 115, 99, 114, 105, 112, 116, 62] ++
+      [60, 100, 105, 118, 62, 60, 115, 116, 121, 108, 101, 62, 60, 112, 62, 60, 47, 115, 116, 121, 108, 101, 62] ++
       [60, 33, 45, 45, 60, 112, 62, 45, 45, 62, 60, 112, 62, 36, 120, 60, 47, 112, 62, 60, 47, 100, 105, 118, 62] := by
   decide +kernel
 
